@@ -18,6 +18,9 @@ C08.g the index entry of a pack is stored as handed over (Indexer::add_with does
 C08.k an index entry rebuilt from a re-read pack header (repair index, checked index) lists every blob of that header.
 C08.j reader limits: a constant upper limit on the header length in PackHeader::from_file is at least the largest header the
   packer writes (COMP_OVERHEAD + MAX_COUNT * max entry length); take_data resets the running size (offsets restart at 0).
+C08.l storage-derived sizes (R-ARITH with storage sources): in PackHeader::from_file the listed pack size, the header-size
+  guess and the decoded trailer length - none of them covered by a MAC - reach no subtraction/addition that can trap or wrap:
+  a truncated, extended or bit-flipped pack is reported as an error (interval analysis with guards, min/checked_sub facts).
 C08.e reader side: PackHeader::from_file compares the decoded header's size with the trailer length and its pack_size
   with the listed size before returning Ok; from_binary advances the offset by each blob's length.
 """
@@ -291,6 +294,8 @@ def run(ctx, rep):
     n_ = borrow(rep, ctx, C16, lambda o: o.rule == "C16.c" and "repair::index" in o.key, "C08.i")
     rep.floor("C08.i", "borrowed obligations", n_, 1)
     reader_limits_rule(ctx, rep, "C08.j")
+    from rules import arith
+    arith.run_storage_sizes(ctx, rep, "C08.l")
     # ---- C08.k: an index entry rebuilt from a pack header lists ALL blobs of that header ---------------------------------------
     rep.rule("C08.k", "index entries rebuilt from a re-read pack header list every blob of the header (no filtering / de-duplication)")
     DROPV = re.compile(r"Vec::<T, A>::(retain|retain_mut|dedup|dedup_by|dedup_by_key|truncate|drain|pop|remove|swap_remove|split_off|clear)$|Iterator::(filter|filter_map|skip|take|step_by|take_while|skip_while)$")
